@@ -41,7 +41,7 @@ SMALL = [contender(a, h, 1, False) for a in (None, 'i', 1) for h in (None, 1)] +
 
 
 def BOUNDS(tier):
-    return {'quick': {'contenders': '2 (36 variants each) and 3 (8 variants each)', 'deviations': 1},
+    return {'quick': {'contenders': '2 (36 variants each), 3 (8 variants each) and 4 (3 variants each)', 'deviations': 1},
             'thorough': {'contenders': '2 (36 variants) and 3 (18 variants)', 'deviations': '1; 2 cancels for 2 contenders'}}[tier]
 
 
@@ -58,6 +58,12 @@ def cases(tier):
     tri = SMALL if tier == 'quick' else MID
     for a, b, c in itertools.product(tri, tri, tri):
         out.append(program([a, b, c]))
+    # four contenders: a waiter that leaves the queue with two or more waiters behind it
+    quad = [contender(None, 1, 1, False), contender('i', 1, 1, False), contender(None, None, 1, False)]
+    quad_all = quad if tier == 'quick' else quad + [contender(1, 1, 1, False), contender(None, 1, 2, False)]
+    for a in quad_all[:2]:
+        for b, c, d in itertools.product(quad_all, quad_all, quad_all):
+            out.append(program([a, b, c, d]))
     return out
 
 
